@@ -5,6 +5,7 @@ import (
 	"flag"
 	"fmt"
 	"os"
+	"os/exec"
 	"path/filepath"
 	"runtime"
 	"sort"
@@ -57,14 +58,15 @@ func main() {
 var outRoot = verifRoot
 
 type checkOpts struct {
-	prop    string
-	tier    string
-	repo    string
-	seed    int
-	verbose bool
-	keep    bool
-	only    string
-	noprobe bool
+	prop     string
+	tier     string
+	repo     string
+	seed     int
+	verbose  bool
+	keep     bool
+	only     string
+	noprobe  bool
+	nocorpus bool
 }
 
 func cmdCheck(args []string) int {
@@ -77,6 +79,7 @@ func cmdCheck(args []string) int {
 	fs.BoolVar(&o.keep, "keep", false, "keep the scratch directory")
 	fs.StringVar(&o.only, "only", "", "only units whose name contains this")
 	fs.BoolVar(&o.noprobe, "noprobe", false, "skip probe corpus")
+	fs.BoolVar(&o.nocorpus, "nocorpus", false, "skip the must-fail corpus (thorough tier)")
 	fs.StringVar(&outRoot, "outdir", verifRoot, "where evidence/ and replays/ are written (scratch runs on modified copies use another directory)")
 	fs.Parse(args)
 	if o.tier == "" {
@@ -371,18 +374,31 @@ func runCheck(o checkOpts) int {
 	}
 	sort.Strings(fnList)
 	cov := map[string]any{
-		"obligations":           nProof,
-		"discharged":            nProved,
-		"cover_queries":         nCover,
-		"cover_sat":             nCovered,
-		"cover_undecided":       nCoverUnknown,
-		"unreachable_paths":     unreachable,
+		"obligations":              nProof,
+		"discharged":               nProved,
+		"cover_queries":            nCover,
+		"cover_sat":                nCovered,
+		"cover_undecided":          nCoverUnknown,
+		"unreachable_paths":        unreachable,
 		"functions_under_contract": fnList,
-		"solver_seconds":        solverTime,
-		"solver_wins":           solverCount,
-		"known_findings_hit":    knownLines,
-		"contract_notes":        db.notes,
-		"spec_hashes":           specs.Hashes,
+		"solver_seconds":           solverTime,
+		"solver_wins":              solverCount,
+		"known_findings_hit":       knownLines,
+		"contract_notes":           db.notes,
+		"spec_hashes":              specs.Hashes,
+	}
+	if o.tier == "thorough" && !o.nocorpus && o.only == "" {
+		res, missed := mustFailCorpus(id, o)
+		cov["must_fail_corpus"] = res
+		for _, m := range missed {
+			violations++
+			rp := filepath.Join(outRoot, "replays", id+"-must-fail-"+sanitize(m)+".json")
+			b, _ := json.MarshalIndent(map[string]any{"property": id, "obligation": "vacuity:must-fail:" + m,
+				"meaning": "a recorded property-breaking change (see /verif/seeded/" + id + "/meta.json) applied to a scratch copy of the current tree was NOT reported by this check: the check has lost its power on this tree"}, "", " ")
+			os.WriteFile(rp, b, 0o644)
+			fmt.Printf("FAILED vacuity:must-fail:%s (the seeded change is not detected)\n", m)
+			fmt.Printf("VIOLATION property=%s replay=%s no-failing-input-found\n", id, rp)
+		}
 	}
 	writeEvidence(id, o, t0, cov, samples, recs, sortedKeys(assumed), violations, db, problems)
 	fmt.Printf("%s %s: %d units, %d/%d obligations discharged, %d/%d covers sat (%d undecided), %d known findings, %d violations, %.1fs\n",
@@ -551,4 +567,77 @@ func cmdReplay(args []string) int {
 		fmt.Println(p)
 	}
 	return 0
+}
+
+// mustFailCorpus (thorough tier): every recorded seeded change of the property is applied to
+// a scratch copy of the current working tree and the quick check is run on the copy; the
+// change must fail at least one obligation. A patch that does not apply to the current tree
+// is skipped (the tree was edited where the patch applies). Scratch copies are removed.
+func mustFailCorpus(id string, o checkOpts) ([]map[string]any, []string) {
+	var out []map[string]any
+	var missed []string
+	patches, _ := filepath.Glob(filepath.Join(verifRoot, "seeded", id, "*.diff"))
+	sort.Strings(patches)
+	self, err := os.Executable()
+	if err != nil {
+		self = filepath.Join(verifRoot, "bin", "govc")
+	}
+	for _, pt := range patches {
+		name := filepath.Base(pt)
+		scratch, err := os.MkdirTemp("", "govc-corpus-"+id+"-")
+		if err != nil {
+			continue
+		}
+		func() {
+			defer os.RemoveAll(scratch)
+			cp := exec.Command("cp", "-r", o.repo, filepath.Join(scratch, "repo"))
+			if b, err := cp.CombinedOutput(); err != nil {
+				out = append(out, map[string]any{"patch": name, "result": "skipped: copy failed: " + string(b)})
+				return
+			}
+			os.RemoveAll(filepath.Join(scratch, "repo", ".git"))
+			ap := exec.Command("git", "apply", "--whitespace=nowarn", pt)
+			ap.Dir = filepath.Join(scratch, "repo")
+			if b, err := ap.CombinedOutput(); err != nil {
+				out = append(out, map[string]any{"patch": name, "result": "skipped: does not apply to the current tree", "detail": firstN(string(b), 200)})
+				return
+			}
+			ck := exec.Command(self, "check", "-property", id, "-tier", "quick", "-repo", filepath.Join(scratch, "repo"),
+				"-outdir", filepath.Join(scratch, "out"), "-noprobe")
+			ck.Dir = verifRoot
+			b, _ := ck.CombinedOutput()
+			var failed []string
+			for _, ln := range strings.Split(string(b), "\n") {
+				if strings.HasPrefix(ln, "FAILED ") || strings.HasPrefix(ln, "UNVERIFIABLE") {
+					f := strings.Fields(ln)
+					if len(f) > 1 {
+						failed = append(failed, f[1])
+					}
+				}
+			}
+			code := ck.ProcessState.ExitCode()
+			if code == 1 && len(failed) > 0 {
+				out = append(out, map[string]any{"patch": name, "result": "detected", "failed_obligations": uniq(failed)})
+			} else {
+				out = append(out, map[string]any{"patch": name, "result": "MISSED", "exit": code})
+				missed = append(missed, name)
+			}
+		}()
+	}
+	return out, missed
+}
+
+func uniq(xs []string) []string {
+	seen := map[string]bool{}
+	var out []string
+	for _, x := range xs {
+		if !seen[x] {
+			seen[x] = true
+			out = append(out, x)
+		}
+	}
+	if len(out) > 8 {
+		out = out[:8]
+	}
+	return out
 }
